@@ -179,6 +179,7 @@ func runSCIONServer(ctx context.Context, log *slog.Logger, mtrcs *scionServerMet
 				log.LogAttrs(ctx, slog.LevelInfo, "failed to reverse path", slog.Any("error", err))
 				continue
 			}
+			scionLayer.PathType = scionLayer.Path.Type()
 			scionLayer.NextHdr = slayers.L4SCMP
 
 			err = buffer.Clear()
@@ -467,6 +468,7 @@ func runSCIONServer(ctx context.Context, log *slog.Logger, mtrcs *scionServerMet
 				log.LogAttrs(ctx, slog.LevelInfo, "failed to reverse path", slog.Any("error", err))
 				continue
 			}
+			scionLayer.PathType = scionLayer.Path.Type()
 			scionLayer.NextHdr = slayers.L4UDP
 
 			udpLayer.DstPort, udpLayer.SrcPort = udpLayer.SrcPort, udpLayer.DstPort
